@@ -131,12 +131,12 @@ Start == /\ ~running /\ curInst # 0
 Frame(inc, site, req) ==
     /\ running /\ frames < MaxFrames
     /\ site \in Sites /\ req[1] \in Reqs
-    /\ (req[1] \in {"switch", "raise"} => nextInst + 1 <= MaxInst)
+    /\ (req[1] \in {"switch", "raise", "switchq", "direct"} => nextInst + 1 <= MaxInst)
     /\ (req[1] = "poke" => inst[req[2]] # 0 /\ inst[req[2]] # curInst /\ Len(q[inst[req[2]]]) < 3)
     /\ (req[1] \in {"nop"} => site = "p2")           \* a frame without request runs every site
     /\ frames' = frames + 1
     /\ (site = "co" => curInst \notin coUsed)
-    /\ coUsed' = IF site = "co" /\ req[1] \notin {"nop", "poke"} THEN coUsed \cup {curInst} ELSE coUsed
+    /\ coUsed' = IF site = "co" /\ req[1] \notin {"nop", "poke", "direct"} THEN coUsed \cup {curInst} ELSE coUsed
     /\ LET reading == now + inc
            dt == IF last = NoTS THEN 0 ELSE reading - last
            w == curInst
@@ -154,6 +154,24 @@ Frame(inc, site, req) ==
                         r == LoopSwitch(f[1], cur, req[2], f[2], f[3]) IN
                     /\ Commit(r[1]) /\ cur' = req[2] /\ curInst' = r[2]
                     /\ last' = reading /\ ret' = "switched" /\ UNCHANGED running
+               [] req[1] = "switchq" ->
+                    \* switch(h) where the entered world's on_switch_in handler raises Quit: the loop has switched and
+                    \* released the entered world's events (the event that raised is not kept), then start() returns
+                    LET f == SwitchFn(s1, w, req[2], FALSE, FALSE)
+                        r == LoopSwitch(f[1], cur, req[2], f[2], f[3]) IN
+                    /\ Commit(r[1]) /\ cur' = req[2] /\ curInst' = r[2]
+                    /\ running' = FALSE /\ last' = NoTS /\ ret' = "returned"
+               [] req[1] = "direct" ->
+                    \* the running code calls loop.switch(h) itself and lets the frame finish: the rest of this frame
+                    \* still belongs to the world being processed, the next iteration processes the new current world
+                    LET r == LoopSwitch(s1, cur, req[2], FALSE, FALSE) IN
+                    /\ Commit(RunSites(r[1], w, k + 1, 4, dt)) /\ cur' = req[2] /\ curInst' = r[2]
+                    /\ last' = reading /\ ret' = "ok" /\ UNCHANGED running
+               [] req[1] = "qlerr" ->
+                    \* quit_loop() whose on_quit handler raises something else: that exception reaches the caller
+                    /\ Commit(Dispatch(s1, w, "on_quit", 0, 0)) /\ running' = FALSE
+                    /\ last' = IF StartResetsInFinally THEN NoTS ELSE reading
+                    /\ ret' = "raised" /\ UNCHANGED <<cur, curInst>>
                [] req[1] = "raise" ->
                     LET r == LoopSwitch(s1, cur, req[2], req[3], req[4]) IN
                     /\ Commit(r[1]) /\ cur' = req[2] /\ curInst' = r[2]
@@ -178,9 +196,9 @@ Frame(inc, site, req) ==
     /\ UNCHANGED started
 
 ReqSet == {<<"nop", "-", FALSE, FALSE>>, <<"quit", "-", FALSE, FALSE>>, <<"quit_loop", "-", FALSE, FALSE>>,
-           <<"clrquit", "-", FALSE, FALSE>>,
+           <<"clrquit", "-", FALSE, FALSE>>, <<"qlerr", "-", FALSE, FALSE>>,
            <<"error", "-", FALSE, FALSE>>}
-          \cup {<<"poke", h, FALSE, FALSE>> : h \in Hs}
+          \cup {<<k, h, FALSE, FALSE>> : k \in {"poke", "switchq", "direct"}, h \in Hs}
           \cup {<<k, h, cc, cn>> : k \in {"switch", "raise"}, h \in Hs, cc \in BOOLEAN, cn \in BOOLEAN}
 
 Next == \/ (\E h \in Hs : InitialSwitch(h))
@@ -208,9 +226,10 @@ RunsOnlyCurrent == [][IsFrame => \A i \in 1..Len(Runs(log')) : Runs(log')[i][2] 
 FrameAbandoned == [][IsFrame /\ ret' \in {"switched", "returned", "raised"} =>
                         \A i \in 1..Len(Runs(log')) : \A j \in 1..Len(Runs(log')) : i < j => SiteIdx(Runs(log')[i][3]) < SiteIdx(Runs(log')[j][3])]_vars
 \* switch(): out once in the world being left, in once in the instance that is entered, after its load-time callbacks
-OutOnceInLeft == [][(IsFrame /\ ret' = "switched" /\ Len(Evs(log', "on_switch_out")) > 0) =>
+SwitchedByFn == IsFrame /\ ret' \in {"switched", "returned"} /\ Len(Evs(log', "on_switch_out")) > 0
+OutOnceInLeft == [][SwitchedByFn =>
                        (Len(Evs(log', "on_switch_out")) = 1 /\ Evs(log', "on_switch_out")[1][2] = curInst)]_vars
-InOnceInEntered == [][(IsFrame /\ ret' = "switched" /\ Len(Evs(log', "on_switch_out")) > 0) =>
+InOnceInEntered == [][SwitchedByFn =>
                         /\ Len(Evs(log', "on_switch_in")) = 1
                         /\ Evs(log', "on_switch_in")[1][2] = curInst'
                         /\ Evs(log', "on_switch_in")[1][5] = curInst'
